@@ -242,3 +242,15 @@ def classify(v, case):
     if m == "grads-alias-unrelated-tensors" and v.get("stale_family"):
         return "stale-view-keeps-base-across-epochs"
     return m
+
+
+def witness_cases():
+    return [{"kind": "hist", "L": "s2", "prog": [
+        {"k": "leaf", "out": "x", "kind": "tensor", "dtype": "float64", "shape": [3], "data": [1.0, 2.0, 3.0], "constant": None, "layout": "C"},
+        {"k": "call", "out": "v", "fn": "getitem", "a": [["r", "x"], ["sl", None, 2, None]], "sp": "mg"},
+        {"k": "call", "out": "s1", "fn": "sum", "a": [["r", "x"]], "sp": "mg"},
+        {"k": "backward", "tgt": "s1", "seed": None},
+        {"k": "setitem", "tgt": "x", "index": ["e"], "value": 5.0},
+        {"k": "call", "out": "m", "fn": "multiply", "a": [["r", "x"], 3.0], "sp": "mg"},
+        {"k": "call", "out": "s2", "fn": "sum", "a": [["r", "m"]], "sp": "mg"},
+        {"k": "backward", "tgt": "s2", "seed": None}]}]
